@@ -63,7 +63,14 @@ type clientCfg struct {
 	tee         int // 0 none, 1 in, 2 out, 3 both
 	others      bool
 	scram       bool // with others: the SASL feature is configured with a SCRAM mechanism only (and the peer offers it)
+	stateMethod bool // the connection handed to the session has a ConnectionState method (a wrapper type, an earlier session's Conn) without being a TLS connection
 }
+
+// stateConn is a connection that can report a TLS state although it is not
+// layered on TLS (the zero state).
+type stateConn struct{ io.ReadWriter }
+
+func (stateConn) ConnectionState() tls.ConnectionState { return tls.ConnectionState{} }
 
 type observation struct {
 	preTLS      string // plaintext the library wrote before the first TLS record
@@ -216,6 +223,9 @@ func runAt(feature xmpp.StreamFeature, cfg clientCfg, location, origin jid.JID, 
 	if WrapConn != nil {
 		rw = WrapConn(conn)
 	}
+	if cfg.stateMethod {
+		rw = stateConn{rw}
+	}
 	negotiate := func() {
 		ctx := context.Background()
 		if WrapCtx != nil {
@@ -298,6 +308,7 @@ func scenarioBody(c *nd.Ctx) nd.Result {
 	case 2:
 		cfg.others, cfg.scram = true, true
 	}
+	cfg.stateMethod = c.Choose(2, "connection-has-a-ConnectionState-method") == 1
 	origin := jid.MustParse("me@example.com/r")
 	mk := func() xmpp.StreamFeature {
 		if cfg.explicitTLS {
@@ -305,7 +316,7 @@ func scenarioBody(c *nd.Ctx) nd.Result {
 		}
 		return xmpp.StartTLS(nil)
 	}
-	desc := fmt.Sprintf("first-list=%s answer=%s explicit-tls-config=%v tee=%d other-features=%v scram-only=%v", firstLists[list].name, answers[answer].name, cfg.explicitTLS, cfg.tee, cfg.others, cfg.scram)
+	desc := fmt.Sprintf("first-list=%s answer=%s explicit-tls-config=%v tee=%d other-features=%v scram-only=%v connection-with-ConnectionState-method=%v", firstLists[list].name, answers[answer].name, cfg.explicitTLS, cfg.tee, cfg.others, cfg.scram, cfg.stateMethod)
 	c.Note("%s", desc)
 	res := nd.Result{Outcome: "error", NonTrivial: desc}
 	// what the peer's clear-text header says about us: nothing, our own address,
@@ -356,7 +367,7 @@ func scenarioBody(c *nd.Ctx) nd.Result {
 	}
 	// the tee changes nothing
 	if cfg.tee != 0 {
-		base := run(mk(), clientCfg{explicitTLS: cfg.explicitTLS, others: cfg.others, scram: cfg.scram}, origin, list, answer)
+		base := run(mk(), clientCfg{explicitTLS: cfg.explicitTLS, others: cfg.others, scram: cfg.scram, stateMethod: cfg.stateMethod}, origin, list, answer)
 		if base.panic == nil {
 			if base.preTLS != obs.preTLS {
 				return fail("tee:changes-cleartext-bytes", "without tee the library wrote %q before TLS", base.preTLS)
